@@ -70,8 +70,12 @@ def build(recipe, model, mods):
     if "sym" in recipe:
         v = model.get(recipe["sym"])
         if v is None:
-            return {"Int": 0, "Real": 0.0, "Bool": False}[recipe["sort"]]
-        return num(v, recipe["sort"])
+            v = {"Int": 0, "Real": 0.0, "Bool": False}[recipe["sort"]]
+        else:
+            v = num(v, recipe["sort"])
+        if recipe.get("as") == "float":
+            v = float(v)
+        return v
     if "tuple" in recipe:
         return tuple(build(x, model, mods) for x in recipe["tuple"])
     if "list" in recipe:
